@@ -492,7 +492,7 @@ def run(ctx, only_extra=False):
             e = r["exp"]
             small = dict(e)
             if "req" in p:
-                small["reqs"] = [e["reqs"][p["req"]]]
+                small["reqs"] = [dict(e["reqs"][p["req"]], free=[])]      # frees name other requests by index: dropped with them
                 with c09.quiet():
                     logging.disable(logging.CRITICAL)
                     rr = run_experiment(env, small)
